@@ -138,12 +138,12 @@ pub fn gen(stream: &str, tier: &str, seed: u64, out: &mut dyn Write) -> bool {
                     if stream == "C04" {
                         if p != Proto::UBin { let _ = writeln!(out, "l {} {}", p.name(), vs); }
                         // the size as each writer itself reports it: own length machine, either zero-copy flag, every string API
-                        if big || all { for zc in ["0", "1"] { for api in apis { let _ = writeln!(out, "lz {} {} {} {}", p.name(), zc, api, vs); } } }
+                        if all { for zc in ["0", "1"] { for api in apis { let _ = writeln!(out, "lz {} {} {} {}", p.name(), zc, api, vs); } } }
                         else { let _ = writeln!(out, "lz {} {} {} {}", p.name(), r.pick(&["0", "1"]), r.pick(apis), vs); }
                     }
                     for b in bufs {
                         if !all && !r.chance(1, 2) { continue; }
-                        if big { for api in apis { let _ = writeln!(out, "rt {} {} {} {}", p.name(), b.name(), api, vs); } continue; }
+                        if big && all { for api in apis { let _ = writeln!(out, "rt {} {} {} {}", p.name(), b.name(), api, vs); } continue; }
                         let api = *r.pick(apis);
                         let _ = writeln!(out, "rt {} {} {} {}", p.name(), b.name(), api, vs);
                         if b == BufK::Bm && p != Proto::UBin { let _ = writeln!(out, "w {} {} {} {}", p.name(), b.name(), api, vs); }
